@@ -109,6 +109,7 @@ def cases(tier, seed):
         if zero:
           p['tol'] = 1e10
       out.append({'est': name, 'params': p, 'zero': zero,
+                  'duplicates': bool(i % 4 == 1),
                   'ds': {'seed': int(r.randint(2**31 - 1)), 'd': d,
                          'classes': classes, 'variant': 'plain',
                          'nmax': 36 if q else 48},
@@ -164,6 +165,15 @@ def _fd_tol(gfd, fval, h):
 def run_case(spec, j):
   name = spec['est']
   ds = common.dataset(spec['ds'])
+  if spec.get('duplicates'):
+    # exact duplicates, within and across classes (zero distances between
+    # distinct samples), and integer-valued features for a few rows
+    rd = rng_for('c10dup', spec['ds']['seed'])
+    Xd = np.array(ds['X'], dtype=float, copy=True)
+    for _ in range(5):
+      a, b = rd.choice(len(Xd), 2, replace=False)
+      Xd[a] = Xd[b]
+    ds = dict(ds, X=Xd)
   X = np.asarray(ds['X'], dtype=float)
   y = ds['t'] if name == 'MLKR' else ds['y']
   n, d = X.shape
